@@ -357,7 +357,10 @@ T_CALLS = {
     'lsf_cross': lambda: (lambda: _tgg.line_sf(55, 273741.2966, 5796489.7769, 54, 758173.7973, 5828674.3402, 'south', _tgc.intl24)),
 }
 _tg, _te = _thr.make(T_CALLS, ['geodepy/geodesy.py'], 'geodesy:utm:threads', quick=['inv_55_54', 'inv_north_intl', 'dir_north_ans', 'lsf_cross'],
-                     triple=('inv_55_54', 'dir_north_ans', 'lsf_cross'), files_thorough=['geodepy/convert.py'], parts=4)
+                     parts=4)
+# (no three-thread case and no line-level tracing of geodepy/convert.py underneath: one grid-geodesic call already has thousands of
+# scheduling points in geodesy.py alone - with convert.py traced too a single case ran for more than 40 minutes and the thorough tier
+# for 3 hours; convert.py under two threads is explored by the thread sub-checks of C01, C02, C10 and C13)
 
 
 from gpmc import callforms as _cf
